@@ -42,7 +42,24 @@ class FCtx(object):
             ev.guards = tuple((T.degate(g[0]), g[1]) for g in ev.raw_guards)
             ev.loops = tuple((l[0], T.degate(T.canon(l[1]))) for l in ev.loops)
         self.ex.loop_guards = dict((k, tuple((T.degate(T.canon(g[0])), g[1]) for g in v)) for k, v in self.ex.loop_guards.items())
+        # conditions that folded to a literal (a flag argument of an inlined helper, ``getattr(os, "fspath", None) is None``):
+        # events under a condition that cannot hold are dead, conditions that always hold are no conditions
+        def const_guard(g):
+            return g[0][0] == "const" and isinstance(g[0][1], (bool, type(None), int))
+        live = []
+        for ev in self.events:
+            if any(const_guard(g) and bool(g[0][1]) != g[1] for g in ev.guards):
+                continue
+            if any(const_guard(g) for g in ev.guards):
+                keep = [i for i, g in enumerate(ev.guards) if not const_guard(g)]
+                ev.guards = tuple(ev.guards[i] for i in keep)
+                ev.raw_guards = tuple(ev.raw_guards[i] for i in keep if i < len(ev.raw_guards))
+            live.append(ev)
+        if len(live) != len(self.events):
+            self.events[:] = live
+        self.ex.loop_guards = dict((k, tuple(g for g in v if not const_guard(g))) for k, v in self.ex.loop_guards.items())
         self._alias_stored_locals()
+        self._canon_regex_calls(model)
         for ev in self.events:
             if ev.kind == "unsupported":
                 raise AnalysisError("unsupported statement %s in %s (line %s)" % (ev.value[1], fref.qname, ev.lineno))
@@ -51,6 +68,41 @@ class FCtx(object):
         if fref.cls is not None and args and fref.node.name not in fref.cls.staticmethods:
             self.selfname = args[0].arg
         self.params = [a.arg for a in args]
+
+    def _canon_regex_calls(self, model):
+        """applying a compiled pattern is applying its text: CONST_RE.match(x) and re.compile(p).match(x) read re.match(p, x)
+        (also search/fullmatch), so that precompiling a pattern into a module constant changes nothing the rules see"""
+        from .model import RegexConst
+        METHS = ("match", "search", "fullmatch")
+        module = self.module
+
+        def fn(x):
+            if x[0] != "call" or x[3]:
+                return None
+            f = x[1]
+            pat = None
+            if f[0] == "global" and "." in f[1] and f[1].rsplit(".", 1)[1] in METHS and not f[1].startswith("re."):
+                try:
+                    v = model._module_const(module, f[1].rsplit(".", 1)[0]) if "." not in f[1].rsplit(".", 1)[0] else None
+                except Exception:
+                    v = None
+                if isinstance(v, RegexConst):
+                    pat, meth = v.pattern, f[1].rsplit(".", 1)[1]
+            elif f[0] == "attr" and f[2] in METHS:
+                r = T.unwrap(f[1])
+                if r[0] == "call" and r[1] == ("global", "re.compile") and len(r[2]) == 1 and r[2][0][0] == "const" and not r[3]:
+                    pat, meth = r[2][0][1], f[2]
+            if pat is None:
+                return None
+            return ("call", ("global", "re." + meth), (("const", pat),) + tuple(x[2]), ())
+        for ev in self.events:
+            for fld in ("value", "target", "raw", "raw_target"):
+                v = getattr(ev, fld)
+                if v is not None:
+                    setattr(ev, fld, T.subst(v, fn))
+            ev.guards = tuple((T.subst(g[0], fn), g[1]) for g in ev.guards)
+            ev.raw_guards = tuple((T.subst(g[0], fn), g[1]) for g in ev.raw_guards)
+        self.ex.loop_guards = dict((k, tuple((T.subst(g[0], fn), g[1]) for g in v)) for k, v in self.ex.loop_guards.items())
 
     def _alias_stored_locals(self):
         """``cell = self.table[key] = {}`` (or ``cell = {}; self.table[key] = cell``): from the store on, the local *is* the
@@ -383,7 +435,7 @@ def assertions_of(model, cls):
                             arg = _patterns(cx.const_of(args[1]))
                     except NotConst as e:
                         raise AnalysisError("%s: argument of %s(%r) cannot be folded: %s" % (cx.qname, f[2], field, e))
-                    out.append(Assertion(cls, defcls, name, field, kind, arg, ev.guards, ev.lineno))
+                    out.append(Assertion(cls, defcls, name, field, kind, arg, tuple(own_guards(cx, ev, kinds=("raise",))), ev.lineno))
                     body_has_effect = True
                 elif f[0] == "global":
                     # a module-level checker applied to a field: verify_label(self.label)
@@ -400,7 +452,7 @@ def assertions_of(model, cls):
                 if exc[0] == "call" and exc[1][0] == "global":
                     excname = exc[1][1]
                 fields = []
-                guards_x = tuple(x for g_ in ev.guards for x in expand_exists_guard(g_))
+                guards_x = tuple(x for g_ in own_guards(cx, ev, kinds=("raise",)) for x in expand_exists_guard(g_))
                 for g, pol in ev.guards:
                     for a in cx.self_attrs_in(g):
                         if a not in fields:
@@ -1082,11 +1134,12 @@ def fold_small(t):
     return None
 
 
-def own_guards(cx, ev):
+def own_guards(cx, ev, kinds=("raise", "return", "continue", "break")):
     """guards of an event that are real conditions of it, i.e. not merely the negation of an earlier early exit
-    (``if bad: raise`` / ``if done: return`` / ``continue``) in the same block"""
+    (``if bad: raise`` / ``if done: return`` / ``continue``) in the same block.  ``kinds`` restricts which early exits count
+    (in a validator only an earlier *raise* is harmless: the value is refused anyway; an earlier return skips checks)"""
     out = []
-    exits = [e for e in cx.events if e.kind in ("raise", "return", "continue", "break")]
+    exits = [e for e in cx.events if e.kind in kinds]
     for i, g in enumerate(ev.guards):
         if g[0][0] == "exc":
             continue
